@@ -119,7 +119,10 @@ class RFBServer(Protocol):  # type: ignore[misc]
         sectype = self.buffer[0]
         log.debug("Client selected %r", AuthTypes.lookup(sectype))
         del self.buffer[:1]
-        self._handler = self._handle_clientInit, 1
+        if sectype == AuthTypes.VNC_AUTHENTICATION:
+            self._handler = self._handle_VNCAuthResponse, 16
+        else:
+            self._handler = self._handle_clientInit, 1
 
     def _handle_VNCAuthResponse(self) -> None:
         del self.buffer[:16]
